@@ -23,7 +23,7 @@ ASSUMPTIONS = [
     "file names are valid UTF-8; no symlinks/special files",
 ]
 BUDGET = {
-    "quick": {"examples": 400, "workers": 8, "time_cap": 70},
+    "quick": {"examples": 650, "workers": 8, "time_cap": 70},
     "thorough": {"examples": 15000, "workers": 14, "time_cap": 900},
 }
 GRID_DESC = "two-file directories over boundary sizes (0,1,B+-1,P-1,P,P+1,2P,2P+1,...) x P, and single files over k*P+d"
